@@ -333,12 +333,14 @@ enum EK {
     MixedArray,
     EmptyTable,
     EmptyArray,
+    Dt,
 }
 
 fn ek_value(k: EK, depth: usize) -> toml::Value {
     use toml::Value as V;
     match k {
         EK::Scalar => V::Integer(1),
+        EK::Dt => V::Datetime(toml_datetime::Datetime { date: Some(toml_datetime::Date { year: 1979, month: 5, day: 27 }), time: Some(toml_datetime::Time { hour: 7, minute: 32, second: 0, nanosecond: 500_000_000 }), offset: Some(toml_datetime::Offset::Z) }),
         EK::Array => V::Array(vec![V::Integer(1), V::Integer(2)]),
         EK::EmptyArray => V::Array(vec![]),
         EK::EmptyTable => V::Table(toml::Table::new()),
@@ -366,6 +368,8 @@ fn ek_value(k: EK, depth: usize) -> toml::Value {
                 t.insert("a".into(), ek_value(EK::Table, depth - 1));
                 t.insert("m".into(), ek_value(EK::MixedArray, depth - 1));
                 t.insert("e".into(), ek_value(EK::EmptyArray, depth - 1));
+                t.insert("d".into(), V::Array(vec![ek_value(EK::Dt, 0), ek_value(EK::Dt, 0)]));
+                t.insert("w".into(), ek_value(EK::Dt, 0));
                 t.insert("c".into(), V::Integer(3));
             }
             V::Table(t)
@@ -375,7 +379,7 @@ fn ek_value(k: EK, depth: usize) -> toml::Value {
 
 fn value_trees(rep: &mut Report, tier: Tier, c13: bool) {
     let t0 = std::time::Instant::now();
-    let kinds = [EK::Scalar, EK::Array, EK::Aot, EK::Table, EK::MixedArray, EK::EmptyTable, EK::EmptyArray];
+    let kinds = [EK::Scalar, EK::Array, EK::Aot, EK::Table, EK::MixedArray, EK::EmptyTable, EK::EmptyArray, EK::Dt];
     let keys = ["a", "b", "c", "d"];
     let n = tier.pick(3usize, 4usize);
     // every assignment of a kind to each of n keys x every insertion order (permutation) of the keys
@@ -436,6 +440,19 @@ fn value_trees(rep: &mut Report, tier: Tier, c13: bool) {
                 let b2 = toml::Table::try_from(&v).map_err(|e| format!("Table::try_from(&Value::Table) fails: {}", e))?;
                 if crate::real::canon_toml_table(&b2, true) != want {
                     return Err(format!("Table::try_from(&Value::Table(t)) = {} but t = {}", crate::real::canon_toml_table(&b2, true), want));
+                }
+                let vv = v.clone().try_into::<toml::Value>().map_err(|e| format!("Value::try_into::<Value> fails: {}", e))?;
+                if cv(&vv) != want {
+                    return Err(format!("Value::try_into::<Value> gives {} instead of {}", cv(&vv), want));
+                }
+                let tt = t.clone().try_into::<toml::Table>().map_err(|e| format!("Table::try_into::<Table> fails: {}", e))?;
+                if crate::real::canon_toml_table(&tt, true) != want {
+                    return Err(format!("Table::try_into::<Table> gives {} instead of {}", crate::real::canon_toml_table(&tt, true), want));
+                }
+                let held = v.clone().try_into::<std::collections::BTreeMap<String, toml::Value>>().map_err(|e| format!("Value::try_into::<Map<String, Value>> fails: {}", e))?;
+                let held_t = toml::Value::Table(held.into_iter().collect());
+                if cv(&held_t) != want {
+                    return Err(format!("Value::try_into::<Map<String, Value>> gives {} instead of {}", cv(&held_t), want));
                 }
                 let c = v.clone().try_into::<toml::Table>().map_err(|e| format!("Value::try_into::<Table> fails: {}", e))?;
                 if crate::real::canon_toml_table(&c, true) != want {
@@ -504,7 +521,7 @@ fn value_trees(rep: &mut Report, tier: Tier, c13: bool) {
         }
     };
     let (total, acc) = crate::universe::sweep_list(&cases, &f);
-    rep.absorb("U-value-tree", &format!("toml::Value tables with {} keys: every assignment of 7 entry kinds x every insertion order x 2 nesting depths", n), total, true, t0, acc);
+    rep.absorb("U-value-tree", &format!("toml::Value tables with {} keys: every assignment of 8 entry kinds (incl. a date-time) x every insertion order x 2 nesting depths", n), total, true, t0, acc);
 }
 
 pub fn c17(tier: Tier) -> i32 {
